@@ -24,7 +24,10 @@
 (* says that decoding what the application is shown gives the request back.  Likewise a        *)
 (* response the application produces (status, reason, headers, body pieces; fixed length,      *)
 (* chunked, empty, or a raised HTTP error) is put on the wire by BuildResponse and read back   *)
-(* by the client.                                                                              *)
+(* by the client.  A 204 or 304 response and the reply to a HEAD request end with their header *)
+(* section (RFC 7230 3.3.3).  FollowUp puts the response to a further request behind the first *)
+(* one on the same connection: it must be read intact (NextIntact), i.e. the first response    *)
+(* was delimited for both sides alike.                                                         *)
 (*                                                                                             *)
 (* Percent-encoded octets are symbolic: "%" followed by two digit symbols that identify the    *)
 (* character ("2","6" for "&"; "R1","R2" for the class "R"; a character outside ASCII takes    *)
@@ -45,15 +48,17 @@ CONSTANTS Methods,     \* request methods
 NoWire(i) == <<>>
 NoKind(i) == "req"
 NoMsgs(i) == 1
-HP == INSTANCE HttpParse WITH NSc <- 1, ScWire <- NoWire, ScKind <- NoKind, ScMsgs <- NoMsgs, MaxPieces <- 1, MaxK <- 1,
+NoHead(i, n) == FALSE
+HP == INSTANCE HttpParse WITH NSc <- 1, ScWire <- NoWire, ScKind <- NoKind, ScMsgs <- NoMsgs, ScHead <- NoHead, MaxPieces <- 1, MaxK <- 1,
                               sc <- 1, sent <- 0, pieces <- 0, closed <- FALSE, fresh <- FALSE, nth <- 1, p <- <<>>, obs <- <<>>
 
 VARIABLES req,      \* the request the client's user builds
           resp,     \* the response the application produces (NoResp until it is asked)
-          stage,    \* "new" -> "sent" -> "served" -> "done"
+          stage,    \* "new" -> "sent" -> "served" -> "done" -> "again"
           environ,  \* what the application was shown (NoEnv before)
-          got       \* what the client's user is handed (NoGot before)
-vars == <<req, resp, stage, environ, got>>
+          got,      \* what the client's user is handed (NoGot before)
+          next      \* what the client's user is handed for a further request on the same connection (NoGot before)
+vars == <<req, resp, stage, environ, got, next>>
 
 (* ------------------------------------------------------------------ text helpers *)
 RECURSIVE Join(_, _), SplitAt(_, _, _), PctDec(_), PlusSp(_)
@@ -155,7 +160,8 @@ BuildRequest(r) ==
 ReqWire(r) == Wire(BuildRequest(r))
 
 \* what the server's parser reports for the bytes, and what the application is shown
-Parsed(wire, kind) == HP!Result(HP!Run([HP!P0 EXCEPT !.buf = wire], kind, kind = "resp"))
+\* hd: the message answers a HEAD request (responses only)
+Parsed(wire, kind, hd) == HP!Result(HP!Run([HP!P0 EXCEPT !.buf = wire], kind, kind = "resp", hd))
 HeadOf(res, name) == LET hs == {h \in res.headers : h[1] = LowerS(name)} IN IF hs = {} THEN <<>> ELSE (CHOOSE h \in hs : TRUE)[2]
 Environ(res) ==
     LET tq == Cut(res.start[2], "?")
@@ -189,23 +195,28 @@ ServerValue == <<"s", "v">>
 ReasonText(st) == CASE st = 200 -> <<"O", "K">> [] st = 204 -> <<"N", "o", SP, "C", "o", "n", "t", "e", "n", "t">>
                     [] st = 404 -> <<"N", "o", "t", SP, "F", "o", "u", "n", "d">> [] st = 500 -> <<"O", "o", "p", "s">>
                     [] st = 418 -> <<"T", "e", "a", "p", "o", "t">>
+                    [] st = 304 -> <<"N", "o", "t", SP, "M", "o", "d", "i", "f", "i", "e", "d">>
 ErrBody == <<"e", "r", "r", LF, "t", LF, "d", LF>>     \* stands for the rendering of the raised error
 TextType == <<"t", "e", "x", "t">>                      \* stands for text/plain
 \* shape: "fixed" (Content-Length given), "chunked" (pieces without a length to an HTTP/1.1 client), "empty" (no body),
 \*        "error" (the application raises an HTTP error carrying status, reason and headers)
 RespBody(r) == IF r.shape = "error" THEN ErrBody ELSE Cat(r.pieces)
-BuildResponse(r) ==
+\* RFC 7230 3.3: a 204 or 304 response and the reply to a HEAD request (hd) end with the header section: no body,
+\* no chunked coding on the wire; a length given by the application (here 0) is passed on
+BuildResponse(r, hd) ==
     LET data == RespBody(r)
+        bodiless == hd \/ r.status \in {204, 304}
         chunks == SelectSeq(r.pieces, LAMBDA x : x # <<>>) IN
     [kind |-> "resp", start |-> <<Http11, Dec(r.status), ReasonText(r.status)>>,
      heads |-> [i \in 1..Len(r.heads) |-> [name |-> r.heads[i].name, ows |-> <<SP>>, value |-> r.heads[i].value]]
                \o (IF r.shape = "error" THEN <<[name |-> ContentType, ows |-> <<SP>>, value |-> TextType]>> ELSE <<>>)
                \o <<[name |-> ServerName, ows |-> <<SP>>, value |-> ServerValue]>>,
      fows |-> <<SP>>,
-     body |-> IF r.shape \in {"fixed", "error"} THEN [k |-> "fixed", data |-> data]
+     body |-> IF bodiless THEN (IF r.shape = "fixed" THEN [k |-> "fixed", data |-> <<>>] ELSE [k |-> "none"])
+              ELSE IF r.shape \in {"fixed", "error"} THEN [k |-> "fixed", data |-> data]
               ELSE [k |-> "chunked", chunks |-> [i \in 1..Len(chunks) |-> [data |-> chunks[i], exts |-> <<>>]],
                     lastexts |-> <<>>, trailers |-> <<>>]]
-RespWire(r) == Wire(BuildResponse(r))
+RespWire(r, hd) == Wire(BuildResponse(r, hd))
 Got(res) == [status |-> NumVal(res.start[2], 10, 0), reason |-> res.start[3],
              heads |-> {h \in res.headers : h[1] \notin {LowerS(ContentLength), LowerS(TransferEncoding), LowerS(ServerName), LowerS(ContentType)}},
              body |-> res.body]
@@ -257,9 +268,11 @@ PieceSets == {<<<<"a">>>>, <<<<"a", "HI">>, <<CR, LF, "0", CR, LF, CR, LF>>>>, <
 RHeads == {<<>>, <<[name |-> XName, value |-> <<"a", SP, "R">>]>>}
 NoResp == [shape |-> "none"]
 Responses(m) ==
-    IF m = "HEAD" THEN {[status |-> 200, heads |-> hs, shape |-> "empty", pieces |-> <<>>] : hs \in RHeads}
+    \* responses without a body: status 204 / 304 / the reply to HEAD, with ("fixed": Content-Length 0) or without
+    \* ("empty") a length given by the application
+    IF m = "HEAD" THEN {[status |-> st, heads |-> hs, shape |-> sh, pieces |-> <<>>] : st \in {200, 304}, hs \in RHeads, sh \in {"empty", "fixed"}}
     ELSE {[status |-> st, heads |-> hs, shape |-> sh, pieces |-> ps] : st \in {200, 404}, hs \in RHeads, sh \in {"fixed", "chunked"}, ps \in PieceSets}
-         \cup {[status |-> st, heads |-> <<>>, shape |-> "empty", pieces |-> <<>>] : st \in {200, 204}}
+         \cup {[status |-> st, heads |-> <<>>, shape |-> sh, pieces |-> <<>>] : st \in {200, 204, 304}, sh \in {"empty", "fixed"}}
          \cup {[status |-> st, heads |-> hs, shape |-> "error", pieces |-> <<>>] : st \in {404, 418, 500}, hs \in RHeads}
 \* outside the "resp" family only a few responses are tried per request
 FewResponses(m) == IF m = "HEAD" THEN Responses(m)
@@ -269,31 +282,41 @@ FewResponses(m) == IF m = "HEAD" THEN Responses(m)
 NoEnv == [method |-> <<>>]
 NoGot == [status |-> 0]
 Init == /\ req \in Requests
-        /\ resp = NoResp /\ stage = "new" /\ environ = NoEnv /\ got = NoGot
+        /\ resp = NoResp /\ stage = "new" /\ environ = NoEnv /\ got = NoGot /\ next = NoGot
 
 AllResponses == UNION {Responses(m) : m \in Methods}
 Offered(r) == IF req \in FamResp THEN r \in Responses(req.method) ELSE r \in FewResponses(req.method)
 \* the client's user hands the request over; the client puts it on the wire
 ClientRequest == /\ stage = "new" /\ stage' = "sent"
-                 /\ UNCHANGED <<req, resp, environ, got>>
+                 /\ UNCHANGED <<req, resp, environ, got, next>>
 \* the server reads the request, shows it to the application, the application answers r
 ServerService(r) == /\ stage = "sent" /\ stage' = "served"
                     /\ Offered(r)
-                    /\ environ' = Environ(Parsed(ReqWire(req), "req"))
+                    /\ environ' = Environ(Parsed(ReqWire(req), "req", FALSE))
                     /\ resp' = r
-                    /\ UNCHANGED <<req, got>>
+                    /\ UNCHANGED <<req, got, next>>
 \* the client reads the response
 ClientService == /\ stage = "served" /\ stage' = "done"
-                 /\ got' = Got(Parsed(RespWire(resp), "resp"))
-                 /\ UNCHANGED <<req, resp, environ>>
-Next == \/ ClientRequest \/ ClientService
+                 /\ got' = Got(Parsed(RespWire(resp, req.method = "HEAD"), "resp", req.method = "HEAD"))
+                 /\ UNCHANGED <<req, resp, environ, next>>
+\* a further request on the same persistent connection: its response follows the first one on the wire, the client
+\* goes on reading where the first response ended
+Follow == [status |-> 200, heads |-> <<>>, shape |-> "fixed", pieces |-> <<<<"n", "x", "t">>>>]
+FollowUp == /\ stage = "done" /\ stage' = "again"
+            /\ LET hd == req.method = "HEAD"
+                   first == HP!Run([HP!P0 EXCEPT !.buf = RespWire(resp, hd) \o RespWire(Follow, FALSE)], "resp", FALSE, hd) IN
+               next' = Got(HP!Result(HP!Run([HP!P0 EXCEPT !.buf = first.buf], "resp", FALSE, FALSE)))
+            /\ UNCHANGED <<req, resp, environ, got>>
+Next == \/ ClientRequest \/ ClientService \/ FollowUp
         \/ \E r \in AllResponses : ServerService(r)
 Spec == Init /\ [][Next]_vars
 
 (* ------------------------------------------------------------------ properties *)
-RoundTripRequest == (stage \in {"served", "done"}) => environ = ExpectedEnv(req)
-RoundTripResponse == (stage = "done") => got = ExpectedGot(resp)
-RoundTrip == RoundTripRequest /\ RoundTripResponse
+RoundTripRequest == (stage \in {"served", "done", "again"}) => environ = ExpectedEnv(req)
+RoundTripResponse == (stage \in {"done", "again"}) => got = ExpectedGot(resp)
+\* every response is delimited: the one to the next request on the connection arrives intact
+NextIntact == (stage = "again") => next = ExpectedGot(Follow)
+RoundTrip == RoundTripRequest /\ RoundTripResponse /\ NextIntact
 \* the wire image of a request is a single well delimited message: nothing is left over
-NothingLeft == (stage = "sent") => HP!Run([HP!P0 EXCEPT !.buf = ReqWire(req)], "req", FALSE).buf = <<>>
+NothingLeft == (stage = "sent") => HP!Run([HP!P0 EXCEPT !.buf = ReqWire(req)], "req", FALSE, FALSE).buf = <<>>
 =============================================================================
